@@ -70,7 +70,7 @@ def authorised (lh : Bool) (faces : List Face) (face : Nat) (name : Name) : Bool
 /-! ### verbs and what their parameters describe -/
 
 inductive Verb
-  | ribRegister | ribUnregister | fibAdd | fibRemove | scSet | scUnset | csConfig | faceUpdate | faceDestroy
+  | ribRegister | ribUnregister | fibAdd | fibRemove | scSet | scUnset | csConfig | faceUpdate | faceDestroy | faceCreate
 deriving DecidableEq, Repr
 
 def verbOf (name : Name) : Option Verb :=
@@ -86,6 +86,7 @@ def verbOf (name : Name) : Option Verb :=
      | .cs, .config => some .csConfig
      | .faces, .update => some .faceUpdate
      | .faces, .destroy => some .faceDestroy
+     | .faces, .create => some .faceCreate
      | _, _ => none)
   | _, _ => none
 
@@ -136,7 +137,7 @@ def mtuClass (mtu : Option Nat) : Validity :=
 def validity (t : Tables) (inFace : Nat) (v : Verb) (hasParamsComp : Bool) (p : Params) : Validity :=
   if !hasParamsComp then .invalid else
   match p with
-  | .undecodable => .invalid
+  | .undecodable | .filter _ | .app _ => .invalid
   | .args a =>
     let faceOk := match a.faceId with
       | some f => f = 0 || (faceGet t.faces f).isSome
@@ -162,6 +163,18 @@ def validity (t : Tables) (inFace : Nat) (v : Verb) (hasParamsComp : Bool) (p : 
          else if !persArgOk f a.pers then .invalid
          else mtuClass a.mtu)
     | .faceDestroy => if a.faceId.isSome then .valid else .invalid
+    | .faceCreate =>
+      (match a.uri with
+       | none => .invalid
+       | some u =>
+         (match uriClass u with
+          | none => .either                       -- a URI string outside the modelled set
+          | some (.udp canon) | some (.tcp canon) =>
+            if !flagsMaskOk a.flags a.mask then .invalid
+            else if (t.faces.find? (fun f => f.uri == canon)).isSome then .invalid     -- face exists: 409
+            else if !createPersOk a.pers then .invalid
+            else mtuClass a.mtu
+          | some _ => .invalid))
 
 /-- the route / next hop / strategy / capacity / face settings the parameters describe, applied to
     the tables (RIB commands and face destruction leave the FIB — and for destruction the RIB —
@@ -172,6 +185,8 @@ structure Effect where
   echo : Args
   fibFree : Bool := false
   ribFree : Bool := false
+  ok : Bool := true          -- side condition (a created face gets a fresh id)
+  consumesId : Bool := false
 
 def specFaceAfter (f : Face) (a : Args) : Face :=
   let f := match a.pers with | some p => { f with pers := p } | none => f
@@ -182,7 +197,8 @@ def specFaceAfter (f : Face) (a : Args) : Face :=
   | some fl, some mk => applyFlags f fl mk
   | _, _ => f
 
-def effect (t : Tables) (inFace : Nat) (v : Verb) (a : Args) : Effect :=
+/-- `newId`: the id the answer reports for a created face (ignored by the other verbs) -/
+def effect (t : Tables) (inFace : Nat) (v : Verb) (a : Args) (newId : Nat := 0) : Effect :=
   let n := a.name.getD []
   let tf := targetFace a inFace
   match v with
@@ -215,10 +231,22 @@ def effect (t : Tables) (inFace : Nat) (v : Verb) (a : Args) : Effect :=
                    bcmi := some f'.bcmi, dct := some f'.dct } }
      | none => { t := t, echo := {} })
   | .faceDestroy =>
-    { t := { t with faces := faceRemove t.faces (a.faceId.getD 0) }, echo := a, fibFree := true, ribFree := true }
+    let f := a.faceId.getD 0
+    if (faceGet t.faces f).isSome then
+      { t := { t with faces := faceRemove t.faces f, rib := ribCleanFace t.rib f }, echo := a, fibFree := true }
+    else { t := t, echo := a, fibFree := true }
+  | .faceCreate =>
+    (match (a.uri.bind uriClass) with
+     | some (.udp canon) =>
+       let f := newFace newId (.udp canon) canon a
+       { t := { t with faces := t.faces ++ [f] }, echo := faceFullProps f, ok := (faceGet t.faces newId).isNone, consumesId := true }
+     | some (.tcp canon) =>
+       let f := newFace newId (.tcp canon) canon a
+       { t := { t with faces := t.faces ++ [f] }, echo := faceFullProps f, ok := (faceGet t.faces newId).isNone, consumesId := true }
+     | _ => { t := t, echo := {} })
 
 def Effect.matches (e : Effect) (after : Tables) : Bool :=
-  (e.ribFree || sameRib e.t.rib after.rib) && (e.fibFree || sameFib e.t.fib after.fib) &&
+  e.ok && (e.ribFree || sameRib e.t.rib after.rib) && (e.fibFree || sameFib e.t.fib after.fib) &&
   sameSc e.t.sc after.sc && e.t.cs == after.cs && sameFaces e.t.faces after.faces
 
 /-! ### table invariants that keep the daemon alive -/
@@ -243,6 +271,7 @@ def datasetOk (d : Dataset) (t : Tables) : Bool :=
   | .cs cap flags _ => (cap : Int) == t.cs && flags == 3
   | .status nfib => nfib == t.fib.length
   | .faces fs => sameFaces fs t.faces
+  | .query q fs => sameFaces fs (t.faces.filter (filterMatch q))
 
 structure Obs where
   lh : Bool
@@ -265,13 +294,17 @@ def cLive (o : Obs) : Bool := match o.out with | .crash => false | _ => true
 /-- authorised: tables differ only if the command was authorised and delivered -/
 def cAuth (o : Obs) : Bool := !o.changed || (o.auth && o.routed)
 
+/-- the id of a created face is taken from the answer -/
+def newIdOf (v : Verb) (echo : Args) : Nat := match v with | .faceCreate => echo.faceId.getD 0 | _ => 0
+
 /-- effect: a 200 answer carries exactly the described effect and echoes it -/
 def cEffect (o : Obs) : Bool :=
   match o.out with
   | .ctrl 200 echo =>
     (match verbOf o.name, o.params with
-     | some v, .args a => (effect o.before o.face v a).matches o.after && echo == (effect o.before o.face v a).echo
-     | some _, .undecodable => false
+     | some v, .args a =>
+       (effect o.before o.face v a (newIdOf v echo)).matches o.after && echo == (effect o.before o.face v a (newIdOf v echo)).echo
+     | some _, _ => false
      | none, _ => !o.changed)
   | _ => true
 
